@@ -3,6 +3,13 @@ import PetgraphModel.Spec.SimpleGraph
 import PetgraphModel.Proofs.GraphMap
 import PetgraphModel.Spec.SimpleGraphJudge
 import PetgraphModel.Proofs.GraphMapJudge
+import PetgraphModel.Spec.C03Dump
+import PetgraphModel.Spec.C03Ordered
+import PetgraphModel.Proofs.C03W4Dump
+import PetgraphModel.Proofs.C03W4Ordered
+import PetgraphModel.Proofs.C03W4Perm
+import PetgraphModel.Proofs.C03W4Index
+import PetgraphModel.Proofs.C03W4Checks
 /-
 C03 — `GraphMap` is a simple graph keyed by node value under every history.
 
@@ -10,6 +17,17 @@ Only property theorems live here; definitions and helper lemmas are in `Proofs/G
 Every theorem is about the mirror model `GM` (tied to `/repo/src/graphmap.rs` + the `Build` impl in
 `/repo/src/data.rs` by the exact correspondence run of `./check C03`, three hashers) and the abstract
 simple graph `SimpleGraphSpec.SG`.
+
+Three layers of specification (wave 4):
+* `SimpleGraphSpec.SG` / `OutOk` — the UNORDERED simple graph: exactly what property C03 states.  The
+  run-time judge `judgeB` decides `OutOk` and is the only source of `SPECFAIL`.
+* `OrderedGraphSpec.OSG` / `ospecOut` — the same graph WITH the order the documented `IndexMap` / `Vec`
+  contract (insertion order, `swap_remove`) gives to nodes, edges and incidences, and the exact answer
+  of every call incl. the compact numbering.  petgraph's own docs promise no order (`all_edges`: "in
+  arbitrary order"), so this layer never produces a `SPECFAIL`; the mirror model is proved to refine it
+  for all histories, and the exact comparison with the mirror (`MODELDIFF`) is the comparison with it.
+* `C03Dump.DumpOk` — what the property says about a whole dump (simultaneous observations): numbering
+  bijection consistent with the iterators, `rev`/`last`/`nth` agreement.
 
 "Any `BuildHasher`": no model function has a hasher parameter — the order of an `IndexMap` is its
 insertion/swap-remove history.  The implementation side of that clause is the harness, which executes
@@ -220,6 +238,213 @@ theorem C03_judge_accepts_model (directed : Bool) (k : Nat) (ops : List Op) (hop
   rw [← h.2.1]
   exact (C03_refines _ op h.1).2
 
+open PetgraphModel.OrderedGraphSpec
+
+/-! ## wave 4
+
+### goal 1 — exact answers of the numbering and of `Build::add_edge` / `update_edge` -/
+
+/-- `EdgeIndexable::to_index((a, b))` exactly: it answers `i` iff `all_edges()` lists `(a, b, _)` at
+position `i`, and it panics ("edge not found") unless `(a, b)` is an edge named the way `all_edges()`
+names it — its own orientation when directed, the ascending pair when undirected.  (So the edge id
+`(b, a)`, `b > a`, that `edges(b)` / `Build::update_edge(b, a, _)` hand out for an undirected edge is
+refused: reported as a candidate defect; `OutOk` tolerates exactly this panic and no other.) -/
+theorem C03_edge_to_index_exact (s : State) (h : Inv s) (a b : Nat) :
+    (∀ i, (step s (.edgeToIndex a b)).2 = .nat i ↔ ∃ w, (allEdges s)[i]? = some (a, b, w)) ∧
+    ((step s (.edgeToIndex a b)).2 = .panic ↔
+      ¬ ((abs s).hasEdge a b = true ∧ (s.directed = true ∨ a ≤ b))) :=
+  ⟨fun i => C03W4.edgeToIndex_iff s h a b i, C03W4.edgeToIndex_panic_iff s h a b⟩
+
+/-- The full-strength reading "every edge id the graph hands out is accepted by
+`EdgeIndexable::to_index`" is FALSE for undirected graphs, in the mirror model as in graphmap.rs
+(`to_index` looks the pair up without `edge_key`): after `add_edge(1, 2, 7)` on an undirected map,
+`edges(2)` yields the edge as `(2, 1, 7)` (id `(2, 1)`), `Build::update_edge(2, 1, _)` returns the id
+`(2, 1)`, but `to_index((2, 1))` panics while `to_index((1, 2))` is `0`.  Reported as a candidate defect;
+the repaired statement is `C03_edge_to_index_exact`. -/
+theorem C03_edge_id_accepted_false_witness :
+    let s := (run (State.empty false) [.addEdge 1 2 7]).1
+    (step s (.edges 2)).2 = .wtriples [(2, 1, some 7)] ∧ (step s (.buildUpdateEdge 2 1 7)).2 = .pair 2 1 ∧
+    (step s (.edgeToIndex 2 1)).2 = .panic ∧ (step s (.edgeToIndex 1 2)).2 = .nat 0 ∧
+    (abs s).hasEdge 2 1 = true := by decide
+
+/-- `Build::add_edge` / `Build::update_edge` answer exactly the pair they were given (`None` for
+`add_edge` when the edge exists) — the unordered `OutOk` only asks for a name of that edge. -/
+theorem C03_build_edge_id_exact (s : State) (a b w : Nat) :
+    (step s (.buildUpdateEdge a b w)).2 = .pair a b ∧
+    (step s (.buildAddEdge a b w)).2 = (if (abs s).hasEdge a b then .optPair none else .optPair (some (a, b))) := by
+  refine ⟨rfl, ?_⟩
+  simp only [step, buildAddEdge, GMProofs.abshas, containsEdge, IMap.contains]
+  by_cases hc : (IMap.get? s.edges (edgeKey s.directed a b)).isSome = true <;> simp [hc]
+
+/-! ### goal 2 — the ordered specification machine -/
+
+/-- the ordered graph a concrete state denotes (node order, edge order, incidence sequences) -/
+abbrev oabs := C03W4.oabs
+
+/-- Refinement of the ORDERED machine, one call: the mirror model moves exactly as the ordered
+specification (insertion order, `swap_remove`) and answers exactly its answer — every iteration order, the
+compact numbering, the returned edge ids; forgetting the order gives the unordered abstraction. -/
+theorem C03_ordered_refines (s : State) (op : Op) (h : Inv s) :
+    oabs (step s op).1 = ospecStep (oabs s) op ∧ (step s op).2 = ospecOut (oabs s) op ∧
+    (oabs s).toSG = abs s :=
+  ⟨C03W4.ordered_state s op h, C03W4.ordered_out s op h, C03W4.toSG_oabs s⟩
+
+/-- Refinement of the ORDERED machine, all histories: from the empty graph the mirror model and the
+ordered specification stay in the same ordered state and give the same answers; the ordered machine in
+turn refines the unordered one (its state forgets to `specRun`, its answers satisfy `OutOk`). -/
+theorem C03_ordered_all_histories (directed : Bool) (ops : List Op) :
+    let r := run (State.empty directed) ops
+    oabs r.1 = ospecRun (OSG.empty directed) ops ∧ r.2 = ospecOuts (OSG.empty directed) ops ∧
+    (ospecRun (OSG.empty directed) ops).toSG = specRun (SG.empty directed) ops ∧
+    OutsOk (SG.empty directed) ops (ospecOuts (OSG.empty directed) ops) := by
+  intro r
+  have h1 := C03W4.ordered_run (State.empty directed) ops (GMProofs.inv_empty directed)
+  have h2 := C03_all_histories directed ops
+  simp only at h2
+  rw [C03W4.oabs_empty] at h1
+  refine ⟨h1.1, h1.2, ?_, ?_⟩
+  · rw [← h1.1, C03W4.toSG_oabs]; exact h2.2.1
+  · rw [← h1.2]; exact h2.2.2
+
+/-- what the two order primitives of the ordered machine do, in the words of the `IndexMap` / `Vec`
+documentation: a new element goes last and an old one keeps its place; `swap_remove` of an absent
+element does nothing, of the last element pops it, of an inner element puts the LAST element in its
+place — all other positions stay. -/
+theorem C03_order_primitives {α : Type} [DecidableEq α] (p : α → Bool) (pre mid : List α) (x z : α)
+    (hpre : ∀ y ∈ pre, p y = false) (hx : p x = true) :
+    (x ∉ pre → pushNew pre x = pre ++ [x]) ∧ (x ∈ pre → pushNew pre x = pre) ∧
+    swapDel p pre = pre ∧ swapDel p (pre ++ [x]) = pre ∧
+    swapDel p (pre ++ x :: (mid ++ [z])) = pre ++ z :: mid :=
+  ⟨C03W4.pushNew_new pre x, C03W4.pushNew_old pre x, C03W4.swapDel_absent p pre hpre,
+   C03W4.swapDel_last p pre x hpre hx, C03W4.swapDel_inner p pre mid x z hpre hx⟩
+
+example : OrderedGraphSpec.swapDel (fun x => x == 2) [1, 2, 3, 4] = [1, 4, 3] ∧
+    OrderedGraphSpec.pushNew [1, 2] 3 = [1, 2, 3] ∧ OrderedGraphSpec.pushNew [1, 2] 1 = [1, 2] := by decide
+
+/-- petgraph promises no iteration order; whatever order the ordered machine (hence the mirror model)
+produces after any history over node values below `k` is a PERMUTATION of the set the unordered
+specification names: `nodes()` of the node set, `neighbors(a)` / `neighbors_directed(a, d)` of the
+out- or in-neighbours, `all_edges()` (names made canonical) of the edge set with the right weights. -/
+theorem C03_orders_are_permutations (directed : Bool) (k : Nat) (ops : List Op)
+    (hops : ∀ op ∈ ops, OpBounded k op) :
+    let g := ospecRun (OSG.empty directed) ops
+    let sg := specRun (SG.empty directed) ops
+    g.ns.Perm ((univ k).filter sg.node) ∧
+    (∀ a, (g.neighbors a).Perm ((univ k).filter (hasDir sg a .out))) ∧
+    (∀ a d, (g.neighborsDirected a d).Perm ((univ k).filter (hasDir sg a d))) ∧
+    (g.triples.map fun e => canon directed (e.1, e.2.1)).Perm (specEdgeKeys sg k) ∧
+    (∀ e ∈ g.triples, sg.w e.1 e.2.1 = some e.2.2) := by
+  intro g sg
+  have h1 := C03W4.ordered_run (State.empty directed) ops (GMProofs.inv_empty directed)
+  have h2 := C03_all_histories directed ops
+  simp only at h2
+  rw [C03W4.oabs_empty] at h1
+  obtain ⟨hinv, habs, _⟩ := h2
+  have hb : sg.Bounded k := GMJudge.specRun_bounded _ k ops (GMJudge.bounded_empty directed k) hops
+  have hwf : sg.WF := by show (specRun (SG.empty directed) ops).WF; rw [← habs]; exact GMProofs.abs_wf _ hinv
+  have hdir : sg.directed = directed := by
+    show (specRun (SG.empty directed) ops).directed = directed
+    have : ∀ (g0 : SG) (l : List Op), (specRun g0 l).directed = g0.directed := by
+      intro g0 l; induction l generalizing g0 with
+      | nil => rfl
+      | cons o t ih => simp only [specRun]; rw [ih, GMProofs.specStep_directed]
+    rw [this]; rfl
+  obtain ⟨s, hs⟩ : ∃ s, s = (run (State.empty directed) ops).1 := ⟨_, rfl⟩
+  rw [← hs] at hinv habs h1
+  have hg : g = C03W4.oabs s := h1.1.symm
+  have habs : abs s = sg := habs
+  refine ⟨?_, ?_, ?_, ?_, ?_⟩
+  · have := C03W4.nodesOk_perm sg k hb (nodesOf s) (habs ▸ GMProofs.nodes_ok s hinv)
+    rw [hg]; exact this
+  · intro a
+    have := C03W4.neighborsOk_perm sg k hb a .out (neighbors s a) (habs ▸ GMProofs.neighbors_ok s hinv a)
+    rw [hg]; exact this
+  · intro a d
+    have := C03W4.neighborsOk_perm sg k hb a d (neighborsDirected s a d) (habs ▸ GMProofs.neighborsDirected_ok s hinv a d)
+    rw [hg]; exact this
+  · have := (C03W4.allEdgesOk_perm sg k hb hwf (allEdges s) (habs ▸ GMProofs.allEdges_ok s hinv)).1
+    rw [hdir] at this
+    rw [hg]; exact this
+  · have := (C03W4.allEdgesOk_perm sg k hb hwf (allEdges s) (habs ▸ GMProofs.allEdges_ok s hinv)).2
+    rw [hg]; exact this
+
+/-! ### goal 3 — the dump-level checks -/
+
+/-- the compact numbering IS the iteration order: `from_index(i)` is the `i`-th element of `nodes()`
+and `to_index` is its inverse (panicking exactly outside the node set / at `node_count` and beyond); the
+same for `EdgeIndexable` against `all_edges()`. -/
+theorem C03_numbering_is_iteration_order (s : State) (h : Inv s) :
+    (∀ i n, (step s (.fromIndex i)).2 = .nat n ↔ (nodesOf s)[i]? = some n) ∧
+    (∀ n i, (step s (.toIndex n)).2 = .nat i ↔ (nodesOf s)[i]? = some n) ∧
+    (∀ n, (step s (.toIndex n)).2 = .panic ↔ n ∉ nodesOf s) ∧
+    (∀ i, (step s (.fromIndex i)).2 = .panic ↔ nodeCount s ≤ i) ∧
+    (∀ i a b, (step s (.edgeFromIndex i)).2 = .pair a b ↔ ∃ w, (allEdges s)[i]? = some (a, b, w)) ∧
+    (∀ a b i, (step s (.edgeToIndex a b)).2 = .nat i ↔ ∃ w, (allEdges s)[i]? = some (a, b, w)) ∧
+    (∀ i, (step s (.edgeFromIndex i)).2 = .panic ↔ edgeCount s ≤ i) :=
+  ⟨C03W4.fromIndex_iff s, C03W4.toIndex_iff s h, C03W4.toIndex_panic_iff s, C03W4.fromIndex_panic_iff s,
+   C03W4.edgeFromIndex_iff s, C03W4.edgeToIndex_iff s h, C03W4.edgeFromIndex_panic_iff s⟩
+
+/-- the statement about a whole dump (`DumpOk`: counts, listings, the numbering bijection of nodes and
+of edges consistent with the iterators, `rev`/`last`/`nth` agreeing with the forward iteration, the
+per-node incidence iterators and rows) -/
+abbrev DumpOk := C03Dump.DumpOk
+
+/-- the mirror model's dump satisfies every dump-level statement after every history (no side condition). -/
+theorem C03_dump_model_ok (directed : Bool) (k : Nat) (ops : List Op) :
+    DumpOk (specRun (SG.empty directed) ops) k (C03Dump.modelDumpS (run (State.empty directed) ops).1 k) := by
+  have h := C03_all_histories directed ops
+  simp only at h
+  rw [← h.2.1]
+  exact C03W4.modelDump_ok _ h.1 k
+
+/-- the executable dump check of the driver decides `DumpOk` on every abstract graph reachable over node
+values below `k` — and therefore accepts the mirror model's dump. -/
+theorem C03_dump_check_decides (directed : Bool) (k : Nat) (ops : List Op) (hops : ∀ op ∈ ops, OpBounded k op)
+    (d : C03Dump.Dump) :
+    (C03Dump.dumpOkB (specRun (SG.empty directed) ops) k d = true ↔ DumpOk (specRun (SG.empty directed) ops) k d) ∧
+    C03Dump.dumpOkB (specRun (SG.empty directed) ops) k
+      (C03Dump.modelDumpS (run (State.empty directed) ops).1 k) = true := by
+  have h := C03_all_histories directed ops
+  simp only at h
+  have hb := GMJudge.specRun_bounded _ k ops (GMJudge.bounded_empty directed k) hops
+  have hwf : (specRun (SG.empty directed) ops).WF := by rw [← h.2.1]; exact GMProofs.abs_wf _ h.1
+  exact ⟨C03W4.dumpOkB_iff _ k hb hwf d, (C03W4.dumpOkB_iff _ k hb hwf _).2 (C03_dump_model_ok directed k ops)⟩
+
+/-! ### run-time checks of the hypotheses
+
+The only hypothesis of a C03 theorem that concerns the concrete case is `OpBounded k` (node values
+below the case's `k`; needed by the judge and dump-check theorems).  `Inv` is not a run-time hypothesis:
+it holds after every history (`C03_all_histories`).  The driver evaluates `opBoundedB` on every call
+(`Driver/C03.lean::advance`) and answers `SPECFAIL generator left the proved range` when it fails. -/
+
+theorem C03_opBounded_check (k : Nat) (op : Op) (h : opBoundedB k op = true) : OpBounded k op :=
+  (C03W4.opBoundedB_iff k op).1 h
+
+/-- the driver is always in scope: its mirror state and its abstract graph are the results of ONE history
+of calls that passed `opBoundedB`, from the empty graph — initially and after every protocol line,
+whatever the line says. -/
+theorem C03_driver_in_scope :
+    C03W4.InScope {} ∧
+    ∀ (d : C03.DState) (req : List String) (impl : String), C03W4.InScope d → C03W4.InScope (C03.step d req impl).1 :=
+  ⟨C03W4.inScope_default, C03W4.step_inScope⟩
+
+/-- hence on every line the driver judges: the mirror state satisfies the invariant and denotes the
+driver's abstract graph, the judge decides `OutOk`, the dump check decides `DumpOk`, and both accept the
+mirror model's own answer (a `SPECFAIL` is never the model's fault). -/
+theorem C03_in_scope_facts (d : C03.DState) (h : C03W4.InScope d) :
+    Inv d.s ∧ abs d.s = d.g ∧
+    (∀ op o, judgeB d.g d.k op o = true ↔ OutOk d.g op o) ∧
+    (∀ dd, C03Dump.dumpOkB d.g d.k dd = true ↔ DumpOk d.g d.k dd) ∧
+    (∀ op, judgeB d.g d.k op (step d.s op).2 = true) ∧
+    C03Dump.dumpOkB d.g d.k (C03Dump.modelDumpS d.s d.k) = true := by
+  obtain ⟨hinv, habs, hb, hwf⟩ := C03W4.inScope_facts d h
+  refine ⟨hinv, habs, GMJudge.judgeB_iff _ _ hb hwf, C03W4.dumpOkB_iff _ _ hb hwf, ?_, ?_⟩
+  · intro op
+    rw [GMJudge.judgeB_iff _ _ hb hwf, ← habs]
+    exact GMProofs.out_ok d.s op hinv
+  · rw [← habs] at hb ⊢
+    exact C03W4.dumpOkB_model d.s hinv d.k hb
+
 /-! non-vacuity: concrete histories satisfy the hypotheses and exercise the interesting paths
 (reciprocal directed edges, a self-loop, `swap_remove` in both maps, remove-then-re-add) -/
 example :
@@ -239,6 +464,37 @@ example : OpBounded 3 (.addEdge 1 2 7) ∧ OpBounded 3 (.fromGraph [0, 2, 2] [(0
 example : judgeB (specRun (SG.empty false) [.addEdge 2 1 7, .addEdge 1 1 9]) 3 (.neighbors 1) (.natList [1, 2]) = true ∧
     judgeB (specRun (SG.empty false) [.addEdge 2 1 7, .addEdge 1 1 9]) 3 (.neighbors 1) (.natList [2]) = false ∧
     judgeB (specRun (SG.empty false) [.addEdge 2 1 7, .addEdge 1 1 9]) 3 .allEdges (.triples [(2, 1, 7), (1, 1, 9)]) = true := by
+  decide
+
+/-! non-vacuity of the wave-4 statements -/
+-- a bounded history (hypothesis of `C03_orders_are_permutations` / `C03_dump_check_decides`)
+example : ∀ op ∈ [Op.addEdge 1 2 7, .removeNode 1, .extend [(0, 2, 1)]], OpBounded 3 op := by
+  intro op hop
+  simp only [List.mem_cons, List.not_mem_nil, or_false] at hop
+  rcases hop with rfl | rfl | rfl
+  · exact ⟨by decide, by decide⟩
+  · trivial
+  · intro e he; simp at he; subst he; exact ⟨by decide, by decide⟩
+-- a driver state that is in scope (hypothesis of `C03_in_scope_facts`) after real protocol lines
+example : C03W4.InScope
+    (C03.step (C03.step (C03.step {} ["case", "1", "undir", "k=3"] "").1 ["add_edge", "2", "1", "7"] "none").1
+      ["remove_node", "1"] "true").1 :=
+  C03_driver_in_scope.2 _ _ _ (C03_driver_in_scope.2 _ _ _ (C03_driver_in_scope.2 _ _ _ C03_driver_in_scope.1))
+example : opBoundedB 3 (.addEdge 1 2 7) = true ∧ opBoundedB 3 (.addEdge 1 3 7) = false := by decide
+-- the ordered machine on a history with reciprocal edges, a self-loop, swap_remove in all three orders
+example :
+    OrderedGraphSpec.ospecOuts (OrderedGraphSpec.OSG.empty false)
+      [.addEdge 2 1 7, .addEdge 1 1 9, .addEdge 0 2 1, .addEdge 0 1 4, .allEdges, .neighbors 1, .removeNode 1,
+       .allEdges, .nodes, .neighbors 2, .edgeToIndex 2 0, .edgeToIndex 0 2, .buildUpdateEdge 2 0 5] =
+    [.optNat none, .optNat none, .optNat none, .optNat none,
+     .triples [(1, 2, 7), (1, 1, 9), (0, 2, 1), (0, 1, 4)], .natList [2, 1, 0], .bool true,
+     .triples [(0, 2, 1)], .natList [2, 0], .natList [0], .panic, .nat 0, .pair 2 0] := by decide
+-- a dump the check accepts / rejects (numbering not the inverse of from_index)
+example :
+    C03Dump.dumpOkB (specRun (SG.empty true) [.addEdge 0 1 5]) 2
+      (C03Dump.modelDumpS (run (State.empty true) [.addEdge 0 1 5]).1 2) = true ∧
+    C03Dump.dumpOkB (specRun (SG.empty true) [.addEdge 0 1 5]) 2
+      { C03Dump.modelDumpS (run (State.empty true) [.addEdge 0 1 5]).1 2 with ni := [some 1, some 0] } = false := by
   decide
 
 end PetgraphModel.C03T
